@@ -632,7 +632,7 @@ def native_crate(crate, prop, tier, scratch):
     out = p.stdout + '\n' + p.stderr
     seen = set()
     for ln in out.splitlines():
-        m = re.match(r'VERIF-OBLIGATION (\S+) props=(\S+) bound="([^"]*)" cases=(\d+) ok', ln)
+        m = re.match(r'VERIF-OBLIGATION (.+?) props=(\S+) bound="([^"]*)" cases=(\d+) ok', ln)
         if m:
             res['tests'].append(dict(name=m.group(1), props=m.group(2).split(','), bound=m.group(3), cases=int(m.group(4)), ok=True))
             seen.add(m.group(1))
@@ -641,7 +641,7 @@ def native_crate(crate, prop, tier, scratch):
         if m:
             res.setdefault('digests', []).append((m.group(1), m.group(2), m.group(3)))
             continue
-        m = re.match(r'VERIF-FAIL (\S+) props=(\S+) (.*)', ln)
+        m = re.match(r'VERIF-FAIL (.+?) props=(\S+) (.*)', ln)
         if m:
             res['tests'].append(dict(name=m.group(1), props=m.group(2).split(','), ok=False, detail=m.group(3)))
             res['failures'].append(dict(name=m.group(1), props=m.group(2).split(','), cls='P', desc=m.group(3), concrete=dict(native_failing_input=m.group(3))))
